@@ -205,7 +205,7 @@ def progress(ctx):
     n = 0
     for A, b, noinl in bodies:
         ev = ctx.evaluate(b, no_inline=noinl)
-        wl = [ls for ls in ev.vf.loops if ls.kind == 'loop' and (ls.owner or '') == strip_generics(b['path'])]
+        wl = [ls for ls in ev.vf.loops if ls.kind == 'loop']      # the function's own while-loops and those of private helpers inlined into it
         for i, ls in enumerate(wl):
             n += 1
             brk = [e for e in ls.exits if e[0] == 'break']
